@@ -21,7 +21,7 @@ RULE = (
     "several keys (any one mapped value may be the applied one): CURIE side unchanged, old URI prefixes kept, at most one "
     "gained, mapped value canonical iff unused elsewhere or already the record's own (old canonical becomes a synonym), a "
     "value owned by another record leaves both untouched; TransitiveError iff keys and values intersect; rewiring unknown "
-    "prefixes adds nothing; rewire twice == once. Non-trivial = a key that is a synonym, a value that is the record's own "
+    "prefixes adds nothing; rewire twice == once; the same call repeated on the same input converter gives the same records. Non-trivial = a key that is a synonym, a value that is the record's own "
     "synonym, or a clash with another record; distinct by hash of (function, records, mapping)."
 )
 ASSUMPTIONS = [
@@ -158,6 +158,13 @@ def check(case, stats: Stats) -> None:
             pr = out.parse_uri(u, return_none=True)
             if pr is None or pr[0] != r["prefix"] or pr[1] != "":
                 raise Violation(f"{fn}({mapping!r}): URI prefix {u!r} parses to {pr!r}")
+    # the functions are pure: asking again on the SAME input converter (whose bookkeeping the first call may have touched)
+    # gives the same records, and so does the sister function on an equivalent mapping
+    again = dump_records(_call(fn, conv, dict(mapping)))
+    if norm_records(again) != norm_records(got):
+        raise Violation(f"{fn}({mapping!r}) called a second time on the same input converter gives {norm_records(again)!r}, the first call gave {norm_records(got)!r}")
+    if norm_records(dump_records(conv)) != norm_records(recs):
+        raise Violation(f"{fn}({mapping!r}) changed its input converter to {norm_records(dump_records(conv))!r}")
     if fn == "rewire":
         twice = dump_records(curies.rewire(out, dict(mapping)))
         if norm_records(twice) != norm_records(got):
